@@ -79,7 +79,7 @@ theorem Good.enqueue {s s' : State} (g : Good s) (r : Req) (hr : r.id = s.nextId
       · exact Or.inl (Or.inr h)
       · exact Or.inl (Or.inl h)
       · exact Or.inr h
-  refine ⟨by rw [hcfg]; exact g.fix, g.core.congr hobjs hev hex hcfg (fun o _ _ => by rw [hdone, g.done]; simp), ?_, ?_, ?_,
+  refine ⟨by rw [hcfg]; exact g.fix, g.core.congr hobjs hev hex hcfg (fun _ _ _ hd => by rw [hdone, g.done] at hd; cases hd), ?_, ?_, ?_,
     by rw [hdone]; exact g.done, by rw [hrt]; exact g.reset⟩
   · refine ⟨?_, ?_, ?_, ?_⟩
     · rw [hq, hex]
@@ -149,7 +149,7 @@ theorem resident_none_of_accepting {s : State} (g : Good s) (hst : s.started = t
     · have := (h1 rfl).1; rw [hsp] at this; cases this
     · have := (h2 rfl).2; rw [hst] at this; cases this
 
-theorem good_request {s : State} (g : Good s) (k : Nat) : Good (request s k).1 := by
+theorem good_request {s : State} (g : Good s) (k : Nat) (bad : Bool) : Good (request s k bad).1 := by
   unfold request
   split
   · exact g
@@ -158,7 +158,7 @@ theorem good_request {s : State} (g : Good s) (k : Nat) : Good (request s k).1 :
       Bool.not_eq_false, Nat.not_le] at hc
     obtain ⟨⟨hst, hsp⟩, _⟩ := hc
     have hsp : s.stopping = false := by simpa using hsp
-    refine g.enqueue ⟨s.nextId, .uod k⟩ rfl ?_ ?_ ?_ ?_ ?_ ?_ ?_ ?_ ?_ ?_ ?_ ?_ ?_ ?_
+    refine g.enqueue ⟨s.nextId, .uod k, bad⟩ rfl ?_ ?_ ?_ ?_ ?_ ?_ ?_ ?_ ?_ ?_ ?_ ?_ ?_ ?_
       (resident_none_of_accepting g hst hsp) (by simp [Req.isUod]) (fun _ => hst)
     all_goals try rfl
     simp only [List.map_append, List.map_cons, List.map_nil, Req.isUod, if_true]
@@ -172,7 +172,7 @@ theorem Good.congr {s s' : State} (g : Good s) (hcfg : s'.cfg = s.cfg) (hn : s'.
     (htk : s'.tracking = s.tracking) (hrs : s'.resident = s.resident)
     (hrp : s'.restartPending = s.restartPending) (hrt : s'.resetTo = s.resetTo)
     (hst : s'.started = s.started) (hsp : s'.stopping = s.stopping) : Good s' := by
-  refine ⟨by rw [hcfg]; exact g.fix, g.core.congr hobjs hev hex hcfg (fun o _ _ => by rw [hdone, g.done]; simp),
+  refine ⟨by rw [hcfg]; exact g.fix, g.core.congr hobjs hev hex hcfg (fun _ _ _ hd => by rw [hdone, g.done] at hd; cases hd),
     ⟨by rw [hq, hex]; exact g.ids.nodup, by rw [hq, hex, hn]; exact g.ids.lt, by rw [htr]; exact g.ids.tnodup,
      by rw [htr, hn]; exact g.ids.tlt⟩,
     ⟨by rw [hq, hex]; exact g.life.one, by rw [hq, hex, hst]; exact g.life.idle, by rw [hst, htk]; exact g.life.trk, ?_⟩,
@@ -224,9 +224,9 @@ theorem good_force {s : State} (g : Good s) (i : Nat) : Good (force s i).1 := by
     simp only
     exact good_force_core g _ _
 
-theorem good_enqueue_life {s : State} (g : Good s) (n : Name) (hn : (⟨s.nextId, n⟩ : Req).isUod = false)
+theorem good_enqueue_life {s : State} (g : Good s) (n : Name) (hn : (⟨s.nextId, n, false⟩ : Req).isUod = false)
     (hfl : lifeInFlight s = false) :
-    Good { s with nextId := s.nextId + 1, queue := s.queue ++ [⟨s.nextId, n⟩] } := by
+    Good { s with nextId := s.nextId + 1, queue := s.queue ++ [⟨s.nextId, n, false⟩] } := by
   have hall : ∀ x ∈ s.queue ++ s.executing, x.isUod = true := by
     intro x hx
     simp only [lifeInFlight, List.any_eq_false] at hfl
@@ -241,7 +241,7 @@ theorem good_enqueue_life {s : State} (g : Good s) (n : Name) (hn : (⟨s.nextId
       obtain ⟨hc, _, ⟨r, hr, hrn⟩, _⟩ := this
       have := hall r (List.mem_append_right _ hr)
       rcases hc with rfl | rfl | rfl <;> simp_all [Req.isUod]
-  refine g.enqueue ⟨s.nextId, n⟩ rfl ?_ ?_ ?_ ?_ ?_ ?_ ?_ ?_ ?_ ?_ ?_ ?_ ?_ ?_ hres (fun _ => hall)
+  refine g.enqueue ⟨s.nextId, n, false⟩ rfl ?_ ?_ ?_ ?_ ?_ ?_ ?_ ?_ ?_ ?_ ?_ ?_ ?_ ?_ hres (fun _ => hall)
     (by intro h; rw [hn] at h; cases h)
   all_goals try rfl
   simp [hn]
@@ -282,8 +282,8 @@ theorem Core.commit {s : State} (h : Core s) : Core (commit s) := by
   refine ⟨h.serials, ?_, ?_, h.dead, h.excl, h.trace, h.evBound⟩
   · exact List.Nodup.sublist (List.Sublist.map _ List.filter_sublist) h.ids
   · intro o ho hm
-    obtain ⟨a, b, c, r, hr, h1, h2, h3⟩ := h.live o ho hm
-    exact ⟨a, b, c, r, (mem_commit_executing s r).mpr ⟨hr, h3⟩, h1, h2, by show r.id ∉ ([] : List Nat); simp⟩
+    obtain ⟨a, b, r, hr, h1, h2, h3⟩ := h.live o ho hm
+    exact ⟨a, b, r, (mem_commit_executing s r).mpr ⟨hr, h3⟩, h1, h2, by show r.id ∉ ([] : List Nat); simp⟩
 
 /-- Committing after some UOD requests were marked done. -/
 theorem good_commit {s s1 : State} (g : Good s) (h1 : Core s1) (hv : view s1 = view s)
@@ -366,8 +366,8 @@ theorem Core.flagCancelled {s : State} (h : Core s) (ser : Nat) :
   · intro o _; split <;> simp
   · intro o ho hm
     have hm' : o.inMap = true := by split at hm <;> simpa using hm
-    obtain ⟨a, b, c, r, hr, h1, h2, h3⟩ := h.live o ho hm'
-    split <;> exact ⟨a, b, c, r, hr, h1, h2, h3⟩
+    obtain ⟨a, b, r, hr, h1, h2, h3⟩ := h.live o ho hm'
+    split <;> exact ⟨a, b, r, hr, h1, h2, h3⟩
   · intro o ho hm
     have hm' : o.inMap = false := by split at hm <;> simpa using hm
     have := h.dead o ho hm'
